@@ -217,6 +217,49 @@ pub fn check_input(info: &mut CaseInfo, input: &str, exhaustive_histories: bool)
                 e.events.len()
             );
         }
+        // the same three interfaces with the keep_tags option on (it changes what a later document
+        // sees of earlier %TAG directives, on every interface alike)
+        if input.contains('%') {
+            info.class("keep_tags pass");
+            let ek = with_parser!(b, input, |p| {
+                let mut p = p.keep_tags(true);
+                crate::drive::pull_all(&mut p, maxev)
+            });
+            let ok = with_parser!(b, input, |p| {
+                let mut p = p.keep_tags(true);
+                push_all(&mut p, maxev)
+            });
+            if ok.events != ek.events || ok.error != ek.error {
+                let n = ok.events.len().min(ek.events.len());
+                let at = (0..n).find(|i| ok.events[*i] != ek.events[*i]).unwrap_or(n);
+                fail!(
+                    "push-differs-keep-tags",
+                    "{}: keep_tags(true): load(multi=true) differs from iteration at #{at}: push={:?} err={:?} | pull={:?} err={:?}",
+                    b.name(),
+                    ok.events.get(at),
+                    ok.error,
+                    ek.events.get(at),
+                    ek.error
+                );
+            }
+            let (od, calls) = with_parser!(b, input, |p| {
+                let mut p = p.keep_tags(true);
+                push_per_doc(&mut p, maxev)
+            });
+            if od.events != ek.events || od.error != ek.error {
+                fail!("push-per-doc-differs-keep-tags", "{}: keep_tags(true): {calls} load(multi=false) calls deliver {} events / {:?}, iteration {} / {:?}", b.name(), od.events.len(), od.error, ek.events.len(), ek.error);
+            }
+            let nk = ek.events.len() + usize::from(ek.error.is_some());
+            for h in histories_sampled(nk, hash64(input)).iter().take(6) {
+                let r = with_parser!(b, input, |p| {
+                    let mut p = p.keep_tags(true);
+                    run_history(&mut p, &ek, h, true)
+                });
+                if let Err(m) = r {
+                    fail!("history-keep-tags", "{}: keep_tags(true): history {:?}: {m}", b.name(), h);
+                }
+            }
+        }
         if b == Backend::Str {
             let docs = e.events.iter().filter(|(x, _)| matches!(x, Ev::DocStart(_))).count();
             let alias = e.events.iter().any(|(x, _)| matches!(x, Ev::Alias(_)));
@@ -246,7 +289,7 @@ impl Property for C17P {
          the first error. Histories (peek count 0..2 before each next): per input 3 uniform + every single peeking position + 8 \
          hash-derived ones; in the 'hist' streams (all strings up to the stated length, corpus) exhaustively 3^n for streams of <= 8 \
          events and every history with <= 3 peeking positions for 9..12 events. Push: load(multi=true) and repeated load(multi=false) \
-         must deliver exactly E's (event, span) list and error. Non-trivial = >= 6 events or >= 2 documents or an alias; distinct by input hash."
+         must deliver exactly E's (event, span) list and error; inputs containing '%' are put through the same comparison again with keep_tags(true) on every interface. Deeply nested documents (200..600 levels) are part of the input space. Non-trivial = >= 6 events or >= 2 documents or an alias; distinct by input hash."
             .into()
     }
     fn assumptions(&self) -> Vec<String> {
